@@ -112,7 +112,13 @@ def alphabet(role):
     for sid in (b0, b1, u0):
         mv.append(("W", sid, B, False))
         mv.append(("W", sid, 1, True))
+    mv.append(("W", b0, 2 * B, False))      # a burst that ends exactly at the limit, more behind it
     mv.append(("RESET", b0))
+    # the ACK that declares everything but a PTO probe lost arrives in the SAME packet as new credit,
+    # so the retransmission of a lost tail merges with never-sent data behind it
+    mv.append(("PTOLOSS_MD", "+6"))
+    mv.append(("PTOLOSS_MD", "big"))
+    mv.append(("PTOLOSS_MSD", b0, "+6"))
     for v in ("eq", "+1", "big"):
         mv.append(("MAX_DATA", v))
     for sid in (b0, u0):
@@ -180,6 +186,34 @@ def step(bot, ref, mv):
             return None, "noop"
         bot.advance(1.0)
         r = bot.ack([pns[-1]])
+    elif k in ("PTOLOSS_MD", "PTOLOSS_MSD"):
+        t = bot.E.conn.get_timer()
+        if t is None or t == bot.E.conn._close_at or not bot.outstanding:
+            return None, "noop"
+        r0 = bot.timer()                       # PTO: a probe packet leaves
+        v0 = ref.observe(r0.sent) if r0 is not None else None
+        if v0:
+            return v0, "bad"
+        pns = sorted(x.pn for x in bot.outstanding if x.epoch == "A")
+        if len(pns) < 2:
+            return None, "noop"
+        bot.advance(1.0)
+        frames = [{"t": "ACK", "ranges": [(pns[-1], pns[-1])], "delay": 0}]
+        bot.outstanding = [x for x in bot.outstanding if not (x.epoch == "A" and x.pn == pns[-1])]
+        if k == "PTOLOSS_MD":
+            cur = ref.max_data
+            val = {"+6": cur + 6, "big": BIGV}[mv[1]]
+            frames.append({"t": "MAX_DATA", "max": val})
+            ref.max_data = max(cur, val)
+        else:
+            sid = mv[1]
+            if ref.e_initiated(sid) and sid not in ref.written:
+                return None, "noop"
+            cur = ref.limit.get(sid, ref.msd0)
+            val = cur + 6
+            frames.append({"t": "MAX_STREAM_DATA", "id": sid, "max": val})
+            ref.limit[sid] = val
+        r = bot.send(frames)
     elif k == "TIMER":
         t = bot.E.conn.get_timer()
         if t is None or t == bot.E.conn._close_at:
